@@ -626,6 +626,37 @@ func SigningRootForkAt(ctx context.Context, cl eth2wrap.Client, name signing.Dom
 	return (&eth2p0.SigningData{ObjectRoot: root, Domain: d}).HashTreeRoot()
 }
 
+// Straddle rewrites an object that carries BOTH a slot and a separate epoch-bearing field so that
+// the two lie in different epochs: attestations (data.slot vs data.target.epoch -- the spec signs with
+// the TARGET epoch) and aggregate-and-proofs (aggregate.data.slot -- the spec signs with the SLOT's
+// epoch -- vs the inner aggregate.data.target.epoch). It reports whether the type has such a pair.
+func Straddle(raw any, slot uint64, otherEpoch uint64) bool {
+	var d *eth2p0.AttestationData
+	switch x := raw.(type) {
+	case *eth2spec.VersionedAttestation:
+		d = attData(x)
+	case *eth2spec.VersionedSignedAggregateAndProof:
+		if p := p0agg(x); p != nil {
+			d = (*p).Message.Aggregate.Data
+		} else if p := elagg(x); p != nil {
+			d = (*p).Message.Aggregate.Data
+		}
+	case *eth2p0.SignedAggregateAndProof:
+		d = x.Message.Aggregate.Data
+	}
+	if d == nil {
+		return false
+	}
+	d.Slot = eth2p0.Slot(slot)
+	d.Target.Epoch = eth2p0.Epoch(otherEpoch)
+	d.Source.Epoch = 0
+	if otherEpoch > 0 {
+		d.Source.Epoch = eth2p0.Epoch(otherEpoch - 1)
+	}
+
+	return true
+}
+
 // ForkVersions returns every fork version of the beacon node's fork schedule, in schedule order.
 func ForkVersions(ctx context.Context, cl eth2wrap.Client) ([]eth2p0.Version, error) {
 	resp, err := cl.ForkSchedule(ctx, &eth2api.ForkScheduleOpts{})
